@@ -30,7 +30,7 @@ struct Elem
 long Elem::constructed, Elem::destroyed, Elem::throw_at = -1, Elem::seq, Elem::double_destroy; std::vector<long> Elem::live_ids, Elem::dtor_ids;
 struct alignas(16) Blob16 { char c[16]; };
 
-struct cfg_t { std::size_t nc, na, nb; std::vector<std::pair<std::size_t, std::size_t>> raw; std::string* log; };
+struct cfg_t { std::size_t nc, na, nb; std::vector<std::pair<std::size_t, std::size_t>> raw; std::string* log; long retry_n = -1, retry_k = -1; };
 static cfg_t* g_cfg = nullptr;
 static Elem* g_src_elems = nullptr;   // source range for range/ilist forms (constructed outside the counted window)
 
@@ -84,6 +84,30 @@ template <class F, class J> static void body(J& self)
     }
     std::snprintf(buf, sizeof buf, " left=%zu", detail::get_stack(self).capacity_left());
     *g_cfg->log += buf;
+    if (g_cfg->retry_n >= 0)
+    {   // a joint_array whose k-th element throws, built (and caught) inside the object's own constructor:
+        // its joint memory must be given back, so that the same request succeeds afterwards
+        auto& st = detail::get_stack(self);
+        std::size_t before = st.capacity_left(); long n = g_cfg->retry_n;
+        long saved_seq = Elem::seq, saved_at = Elem::throw_at;
+        Elem::seq = 0; Elem::throw_at = g_cfg->retry_k;
+        const char* r1 = "ok";
+        try
+        {
+            if (std::is_same<F, f_size>::value) { joint_array<Elem> tmp(std::size_t(n), self); }
+            else if (std::is_same<F, f_value>::value) { joint_array<Elem> tmp(std::size_t(n), g_src_elems[0], self); }
+            else if (std::is_same<F, f_range>::value) { joint_array<Elem> tmp(g_src_elems, g_src_elems + n, self); }
+            else { joint_array<Elem> tmp({g_src_elems[0], g_src_elems[1], g_src_elems[2]}, self); }
+        }
+        catch (boom&) { r1 = "boom"; } catch (out_of_fixed_memory&) { r1 = "oofm"; }
+        std::size_t after = st.capacity_left();
+        Elem::throw_at = -1;
+        const char* r2 = "ok";
+        try { joint_array<Elem> again(std::size_t(n), self); } catch (boom&) { r2 = "boom"; } catch (out_of_fixed_memory&) { r2 = "oofm"; }
+        Elem::seq = saved_seq; Elem::throw_at = saved_at;
+        std::snprintf(buf, sizeof buf, " retry=%s before=%zu after=%zu second=%s", r1, before, after, r2);
+        *g_cfg->log += buf;
+    }
     (void)U;
 }
 
@@ -144,8 +168,9 @@ int main()
     {
         std::istringstream is(line); std::string k, form, post; std::size_t cap, nc, na, nb; long throw_at;
         is >> k >> form >> cap >> nc >> na >> nb >> throw_at >> post;
-        if (k != "j") continue;
+        if (k != "j" && k != "r") continue;
         cfg_t cfg{nc, na, nb, {}, nullptr}; std::size_t s, a;
+        if (k == "r") { cfg.retry_n = long(na); cfg.retry_k = throw_at; cfg.na = 0; throw_at = -1; }   // r <form> <cap> <nc> <n> <nb> <k> none
         while (is >> s >> a) cfg.raw.push_back({s, a});
         std::string log; cfg.log = &log; g_cfg = &cfg;
         up().bump = (up().bump + 4095) & ~std::size_t(4095);
